@@ -405,12 +405,17 @@ pub struct Item {
     pub cfg: &'static LayoutCfg,
     pub sql: String,
     pub emit_cases: bool,
+    /// > 0: do not lint; parse and drive `apply_fixes` directly with this many synthetic batches
+    pub synth: usize,
 }
 
 const MAX_CASE_LEAVES: usize = 260;
 const MAX_RUN_LEAVES: usize = 120;
 
 fn run_one(ls: &mut Linters, it: &Item, out: &mut Buf) {
+    if it.synth > 0 {
+        return run_synth(ls, it, out);
+    }
     let lt = linter(ls, &it.dialect, "layout", it.cfg);
     let input = json!({"dialect": it.dialect, "cfg": it.cfg.name, "sql": it.sql});
     out.count("inputs", 1);
@@ -551,6 +556,133 @@ fn run_one(ls: &mut Linters, it: &Item, out: &mut Buf) {
     }
 }
 
+
+// ------------------------------------------------------------------ synthetic batches, kernel level
+/// Drive `compute_anchor_edit_info` + `ErasedSegment::apply_fixes` directly (public API) with random
+/// batches over a real parsed tree: every edit type, pairs in both orders, duplicates, conflicting
+/// entries, anchors on tokens / nodes / the root / a segment that is not in the tree, fresh and
+/// moved (same id) edit segments, edit nodes. Group `synth`: Gallina `apply_batch` must equal the result.
+fn run_synth(ls: &mut Linters, it: &Item, out: &mut Buf) {
+    use sqruff_lib_core::dialects::syntax::SyntaxKind;
+    use sqruff_lib_core::linter::compute_anchor_edit_info;
+    use sqruff_lib_core::parser::segments::base::SegmentBuilder;
+    let lt = linter(ls, &it.dialect, "layout", it.cfg);
+    let tables = Tables::default();
+    let Ok(Ok(parsed)) = catch(|| lt.parse_string(&tables, &it.sql, None)) else {
+        out.count("synth_skipped_unparsed", 1);
+        return;
+    };
+    let Some(tree) = parsed.tree else { return };
+    let before = conv(&tree);
+    if before.n_leaves() > 90 {
+        return;
+    }
+    let all = tree.recursive_crawl_all(false);
+    if all.len() < 4 {
+        return;
+    }
+    let mut rng = Rng::new(u64::from_str_radix(&fnv(&it.sql), 16).unwrap_or(7));
+    for round in 0..it.synth {
+        let fresh = |rng: &mut Rng| -> ErasedSegment {
+            let id = tables.next_id();
+            match rng.below(5) {
+                0 => SegmentBuilder::whitespace(id, " "),
+                1 => SegmentBuilder::newline(id, "\n"),
+                2 => SegmentBuilder::whitespace(id, "    "),
+                3 => SegmentBuilder::token(id, "-- c", SyntaxKind::InlineComment).finish(),
+                _ => SegmentBuilder::keyword(id, "KW"),
+            }
+        };
+        let edit = |rng: &mut Rng| -> Vec<ErasedSegment> {
+            let n = rng.range(1, 2);
+            (0..n)
+                .map(|_| if rng.chance(1, 6) { all[rng.range(1, all.len() - 1)].clone() } else { fresh(rng) })
+                .collect()
+        };
+        let mut fixes: Vec<LintFix> = vec![];
+        let n_anchor = rng.range(1, 5);
+        for _ in 0..n_anchor {
+            let a = match rng.below(20) {
+                0 => all[0].clone(),                                 // the root: never met
+                1 => SegmentBuilder::whitespace(tables.next_id(), " "), // not in the tree: dropped
+                _ => all[rng.range(1, all.len() - 1)].clone(),
+            };
+            match rng.below(11) {
+                0 => fixes.push(LintFix::delete(a)),
+                1 => fixes.push(LintFix::replace(a, edit(&mut rng), None)),
+                2 => fixes.push(LintFix::create_before(a, edit(&mut rng))),
+                3 => fixes.push(LintFix::create_after(a, edit(&mut rng), None)),
+                4 => {
+                    fixes.push(LintFix::create_before(a.clone(), edit(&mut rng)));
+                    fixes.push(LintFix::create_after(a, edit(&mut rng), None));
+                }
+                5 => {
+                    fixes.push(LintFix::create_after(a.clone(), edit(&mut rng), None));
+                    fixes.push(LintFix::create_before(a, edit(&mut rng)));
+                }
+                6 => {
+                    // the same fix twice (deduplicated by PartialEq: same raws)
+                    let e = vec![SegmentBuilder::whitespace(tables.next_id(), " ")];
+                    let e2 = vec![SegmentBuilder::whitespace(tables.next_id(), " ")];
+                    fixes.push(LintFix::create_after(a.clone(), e, None));
+                    fixes.push(LintFix::create_after(a, e2, None));
+                }
+                7 => {
+                    fixes.push(LintFix::create_after(a.clone(), edit(&mut rng), None));
+                    fixes.push(LintFix::delete(a));
+                }
+                8 => {
+                    fixes.push(LintFix::create_before(a.clone(), edit(&mut rng)));
+                    fixes.push(LintFix::create_after(a.clone(), edit(&mut rng), None));
+                    fixes.push(LintFix::replace(a, edit(&mut rng), None));
+                }
+                9 => {
+                    fixes.push(LintFix::delete(a.clone()));
+                    fixes.push(LintFix::delete(a));
+                }
+                _ => {
+                    fixes.push(LintFix::create_after(a.clone(), edit(&mut rng), None));
+                    fixes.push(LintFix::create_after(a, edit(&mut rng), None));
+                }
+            }
+        }
+        if rng.chance(1, 2) {
+            rng.shuffle(&mut fixes);
+        }
+        let args = g_tuple(&[before.gs(), g_list(fixes.iter().map(fix_g))]);
+        let fixes_j: Vec<Value> = fixes.iter().map(fix_j).collect();
+        let r = catch(|| {
+            let mut info = compute_anchor_edit_info(fixes.clone().into_iter());
+            let (t, _, _, _) = tree.apply_fixes(&mut info);
+            t
+        });
+        out.count("synth_batches", 1);
+        let sample = json!({"input": {"dialect": it.dialect, "cfg": it.cfg.name, "sql": it.sql, "synth": it.synth}, "round": round, "fixes": fixes_j});
+        match r {
+            Ok(t) => {
+                let after = conv(&t);
+                if std::env::var("SQV_SHOW").is_ok() {
+                    eprintln!("ROUND {} fixes {}", round, serde_json::to_string(&fixes_j).unwrap());
+                    eprintln!("  BEFORE {}", before.gs());
+                    eprintln!("  AFTER  {}", after.gs());
+                }
+                out.case("synth", "synth", fixes.len() >= 3, args, format!("(Some {})", after.gs()), sample);
+            }
+            Err(msg) => {
+                // `unimplemented!()` of AnchorEditInfo::add is modelled (None); panics of the position
+                // code are not: only the former is compared
+                if msg.contains("not implemented") {
+                    out.count("synth_add_unimplemented", 1);
+                    out.case("synth", "synth-panic", true, args, "None".to_string(), sample);
+                } else {
+                    out.count("synth_unmodelled_panic", 1);
+                    out.hyp("synth_no_unmodelled_panic", "diagnostic", false, json!({"msg": msg, "sample": sample}));
+                }
+            }
+        }
+    }
+}
+
 /// hand-written probes: token pairs that spacing rules might make touch
 pub const FUSION_PROBES: &[(&str, &str)] = &[
     ("ansi", "SELECT 1 - -2\n"),
@@ -593,6 +725,7 @@ pub fn main(args: &Args) {
             cfg: layout_cfg_by_name(v["cfg"].as_str().unwrap_or("default")),
             sql: v["sql"].as_str().unwrap_or("").to_string(),
             emit_cases: true,
+            synth: v["synth"].as_u64().unwrap_or(0) as usize,
         });
     } else {
         for (d, sql) in FUSION_PROBES {
@@ -600,7 +733,7 @@ pub fn main(args: &Args) {
                 continue;
             }
             for cfg in LAYOUT_CFGS.iter().take(if args.thorough() { LAYOUT_CFGS.len() } else { 4 }) {
-                items.push(Item { cls: "probe", dialect: d.to_string(), cfg, sql: sql.to_string(), emit_cases: true });
+                items.push(Item { cls: "probe", dialect: d.to_string(), cfg, sql: sql.to_string(), emit_cases: true, synth: 0 });
             }
         }
         let corpus = corpus();
@@ -608,6 +741,7 @@ pub fn main(args: &Args) {
         let mut gen_linters: HashMap<String, Linter> = HashMap::new();
         let (stride, n_cfg_per_file, max_len) = if args.thorough() { (1usize, 4usize, 12000usize) } else { (4usize, 1usize, 2500usize) };
         let mut case_budget = if args.thorough() { 2500usize } else { 420usize };
+        let mut synth_budget = if args.thorough() { 6000usize } else { 600usize };
         for (k, f) in corpus.iter().enumerate() {
             if !DIALECTS.contains(&f.dialect.as_str()) || f.text.len() > max_len {
                 continue;
@@ -622,6 +756,11 @@ pub fn main(args: &Args) {
                 ("scrambled", scramble(&toks, &mut rng)),
                 ("collapsed", collapse(&toks)),
             ];
+            if f.text.len() < 600 && synth_budget > 0 {
+                let n = if args.thorough() { 12 } else { 6 };
+                synth_budget = synth_budget.saturating_sub(n);
+                items.push(Item { cls: "synth", dialect: f.dialect.clone(), cfg: &LAYOUT_CFGS[0], sql: f.text.clone(), emit_cases: true, synth: n });
+            }
             for (cls, sql) in variants {
                 for j in 0..n_cfg_per_file {
                     let cfg = if j == 0 && cls == "corpus" { &LAYOUT_CFGS[0] } else { &LAYOUT_CFGS[rng.below(LAYOUT_CFGS.len())] };
@@ -629,7 +768,7 @@ pub fn main(args: &Args) {
                     if emit {
                         case_budget -= 1;
                     }
-                    items.push(Item { cls, dialect: f.dialect.clone(), cfg, sql: sql.clone(), emit_cases: emit });
+                    items.push(Item { cls, dialect: f.dialect.clone(), cfg, sql: sql.clone(), emit_cases: emit, synth: 0 });
                 }
             }
         }
